@@ -22,14 +22,14 @@ ASSUMPTIONS = ["how a multi-file sub-group aggregates timestamps / nesting is no
                "birth time and ctime cannot be set: they are produced by creation / chmod order with 20 ms spacing and "
                "read back with statx"]
 
-PATHS = ["r1/a/f0", "r1/a/b/f1", "r1/c/f2", "r2/x/y/z/f3", "r2/f4"]
+PATHS = ["r1/a/f0", "r1/a/b/f1", "r1/c/f2", "r1x/x/y/z/f3", "r1x/f4"]
 PRIOS = ["top", "bottom", "newest", "oldest", "most-recently-modified", "least-recently-modified",
          "most-recently-accessed", "least-recently-accessed", "most-recent-status-change",
          "least-recent-status-change", "most-nested", "least-nested"]
 PATTERN_SETS = [
     ("none", []),
     ("name", ["--name", "f[01]"]),
-    ("path", ["--path", "**/r2/**"]),
+    ("path", ["--path", "**/r1x/**"]),
     ("keep_name", ["--keep-name", "f0"]),
     ("keep_path", ["--keep-path", "**/a/**"]),
     ("name_keep", ["--name", "f*", "--keep-name", "f2"]),
@@ -120,7 +120,7 @@ def build(sc, case):
         if p != first[rgs[i]]:
             os.makedirs(os.path.dirname(p), exist_ok=True)
             os.link(first[rgs[i]], p)
-    for d in ("r1", "r2"):
+    for d in ("r1", "r1x"):
         os.makedirs(sc.path(d), exist_ok=True)
     base = 1_500_000_000
     for b in blocks:
@@ -243,14 +243,14 @@ def evaluate(case):
     with C.Scratch() as sc:
         build(sc, case)
         gargs = ["--min", "0"]
-        roots = ["r1", "r2"]
+        roots = ["r1", "r1x"]
         opts = {}
         inh = case["inherit"]
         if inh in ("isolate", "isolate_dot"):
             gargs.append("--isolate")
             if inh == "isolate_dot":
-                roots = ["./r1", "r2/../r2"]
-            opts["isolate_roots"] = [sc.path("r1").decode(), sc.path("r2").decode()]
+                roots = ["./r1", "r1x/../r1x"]
+            opts["isolate_roots"] = [sc.path("r1").decode(), sc.path("r1x").decode()]
         elif inh == "match_links":
             gargs.append("-H")
             opts["match_links"] = True
@@ -302,10 +302,10 @@ def evaluate(case):
                     op, o["file"], o["target"])))
         if case["real"] and got_drop == exp_drop:
             before = C.inventory(sc.tree)
-            r2 = D.run_dedupe(sc, op, dargs, report, dry_run=False, target=target)
+            r1x = D.run_dedupe(sc, op, dargs, report, dry_run=False, target=target)
             after = C.inventory(sc.tree)
-            if r2["rc"] != 0:
-                viol.append(dict(feat, kind="real_run_failed", detail="%s %s rc=%s %s" % (op, dargs, r2["rc"], r2["err"][-300:])))
+            if r1x["rc"] != 0:
+                viol.append(dict(feat, kind="real_run_failed", detail="%s %s rc=%s %s" % (op, dargs, r1x["rc"], r1x["err"][-300:])))
             else:
                 for p in exp_keep:
                     a, b2 = before.get(p), after.get(p)
